@@ -11,7 +11,8 @@ Definition map_interp : mscripts :=
   mkMS (eval_script map_broker_add) (eval_script map_broker_read_unordered) (eval_script map_broker_stream_read).
 
 Definition map_cinterp : cscripts :=
-  mkCS (eval_script map_broker_find_expired) (eval_script map_broker_batch_remove).
+  mkCS (eval_script map_broker_find_expired) (eval_script map_broker_batch_remove)
+       (eval_script map_broker_read_ordered) (eval_script map_broker_stats).
 
 Definition map_script_by_name (n : string) : option block :=
   if String.eqb n "map_broker_add" then Some map_broker_add
@@ -20,6 +21,8 @@ Definition map_script_by_name (n : string) : option block :=
   else if String.eqb n "map_broker_read_meta" then Some map_broker_read_meta
   else if String.eqb n "map_broker_find_expired" then Some map_broker_find_expired
   else if String.eqb n "map_broker_batch_remove" then Some map_broker_batch_remove
+  else if String.eqb n "map_broker_read_ordered" then Some map_broker_read_ordered
+  else if String.eqb n "map_broker_stats" then Some map_broker_stats
   else None.
 
 Definition map_srv_exec (st : rstate) (cmd : list string) : rstate * reply :=
